@@ -82,13 +82,13 @@ struct Grid_Script : public Script {
       if (op == AFF_IMG) A.affine_image(Variable(k), le(a, b, n), Coefficient(d)); else A.affine_preimage(Variable(k), le(a, b, n), Coefficient(d));
       out.push_back(obs_grid(A)); break; }
     case GEN_IMG: case GEN_PRE: {
-      int k = rnd(0, n - 1); int r = coin(80) ? 2 : rnd(0, 4); std::vector<long> a = raw_vec(n, 30); long b = rc(); long d = coin(70) ? rc_small_nz() : rc_nz(); long m = coin(40) ? 0 : rc();
+      int k = rnd(0, n - 1); int r = coin(80) ? 2 : rnd(0, 4); std::vector<long> a = raw_vec(n, 30); long b = rc(); long d = coin(70) ? rc_small_nz() : rc_nz(); long m = (r != 2 || coin(40)) ? 0 : rc();   // a modulus is only meaningful with EQUAL
       const char* nm = op == GEN_IMG ? "generalized_affine_image" : "generalized_affine_preimage";
       ctx.begin(nm, ra + "." + nm + "(" + (char) ('A' + k) + " " + RELSS[r] + " (" + show(a, b) + ")/" + std::to_string(d) + " mod " + std::to_string(m) + ")");
       if (op == GEN_IMG) A.generalized_affine_image(Variable(k), RELS[r], le(a, b, n), Coefficient(d), Coefficient(m)); else A.generalized_affine_preimage(Variable(k), RELS[r], le(a, b, n), Coefficient(d), Coefficient(m));
       out.push_back(obs_grid(A)); break; }
     case GEN_IMG_LR: case GEN_PRE_LR: {
-      int r = coin(80) ? 2 : rnd(0, 4); std::vector<long> l = raw_vec(n, 50), a = raw_vec(n, 30); long lb = rc(), b = rc(); long m = coin(40) ? 0 : rc();
+      int r = coin(80) ? 2 : rnd(0, 4); std::vector<long> l = raw_vec(n, 50), a = raw_vec(n, 30); long lb = rc(), b = rc(); long m = (r != 2 || coin(40)) ? 0 : rc();
       const char* nm = op == GEN_IMG_LR ? "generalized_affine_image_lr" : "generalized_affine_preimage_lr";
       ctx.begin(nm, ra + "." + nm + "(" + show(l, lb) + " " + RELSS[r] + " " + show(a, b) + " mod " + std::to_string(m) + ")");
       if (op == GEN_IMG_LR) A.generalized_affine_image(le(l, lb, n), RELS[r], le(a, b, n), Coefficient(m)); else A.generalized_affine_preimage(le(l, lb, n), RELS[r], le(a, b, n), Coefficient(m));
